@@ -138,6 +138,7 @@ type Specs struct {
 	FuncTypes map[string]*FuncTypeSpec
 	Confines  []*ConfineSpec
 	StopRules []*StopSpec
+	SMTAxioms []string // raw SMT-LIB assertions about the uninterpreted float functions (assumed)
 }
 
 type StopSpec struct {
@@ -318,6 +319,11 @@ func (sp *Specs) parseSpecFile(path, pkg string) error {
 				}
 			}
 			sp.FuncTypes[pkg+"."+curFT.Name] = curFT
+		case kw == "smt-axiom":
+			if err := finish(); err != nil {
+				return err
+			}
+			sp.SMTAxioms = append(sp.SMTAxioms, rest)
 		case kw == "ghost":
 			if err := finish(); err != nil {
 				return err
